@@ -152,6 +152,18 @@ def run(ctx):
                             {"race_report": first, "stress": "TestVerifC16Stress: u2fSignRequest, u2fSignResponse, webauthnAuthLogin, webauthnAuthFinish, readyz, TOTPAuth for 4 users concurrently + the periodic cleanup"})
         elif src != 0:
             ctx.notes.append("race-detector stress run exited %d without a race report (ignored: supporting search)" % src)
+    # the Okta authenticator's shared session cache (library level), under the race detector
+    ol, olog, orc = c.run_harness(ctx, "lib/authenticators/okta", "C16Okta", ["okta 4 6"] if ctx.quick() else ["okta 4 20", "okta 16 20"],
+                                  timeout=900, race=True, tag="o")
+    hist["okta_cache_race_runs"] = len(ol)
+    if "WARNING: DATA RACE" in olog:
+        first = olog[olog.index("WARNING: DATA RACE"):][:1500]
+        where = [l.strip() for l in first.splitlines() if "lib/authenticators/okta/" in l and "zz_verif" not in l][:4]
+        c.add_violation(ctx, "data-race:okta-session-cache", "go test -race reported a data race on the Okta authenticator's cache of recent "
+                        "authentications (expired sessions looked up by several requests at once) at " + " / ".join(where),
+                        {"race_report": first, "ops": ["okta 4 6"]})
+    elif orc != 0 or not ol or not all(x.startswith("done") for x in ol):
+        ctx.broken.append("harness TestVerifC16Okta did not complete (exit %d, output %r)" % (orc, ol))
     ctx.coverage.update({
         "evaluations": len(ops) + len(totp_ops), "distinct_nontrivial": len(traces),
         "rule": "pairs of profile-mutating requests (U2F/TOTP token management actions, bootstrap OTP) on one user, each pair under all 6 interleavings of their load and save steps, forced deterministically on the real handlers by a wrapping database/sql driver; outcome (two statuses + final stored profile) compared with KM.Conc.run and with the pair's own two sequential outcomes; non-trivial = distinct realised storage traces",
